@@ -588,6 +588,28 @@ void h_descriptor(void)
     CHECK(rc == -1 && errno == EINVAL, "a value cannot be assigned to a map expression");
     v = vnaproperty_get(root, "foo");
     CHECK(v != NULL && str_eq(v, "bar"), "and the scalar is not replaced by an empty map first");
+#elif DESC_CASE == 15
+    {
+	/* copy preserves the LENGTH of a list whose last element is null (list built with the container functions) */
+	vnaproperty_t *lst = list_alloc(), *copy = NULL;
+	vnaproperty_t **slot;
+
+	ASSUME(lst != NULL);
+	slot = list_append(lst);
+	ASSUME(slot != NULL);
+	*slot = scalar_alloc("a");
+	ASSUME(*slot != NULL);
+	slot = list_append(lst);			/* stays null */
+	ASSUME(slot != NULL);
+	CHECK(vnaproperty_count(lst, ".") == 2, "two elements, the last one null");
+	rc = vnaproperty_copy(&copy, lst);
+	REACH("copy of a list with a trailing null returned");
+	CHECK(rc == 0, "copy succeeds");
+	CHECK(copy != NULL && copy->vpr_type == VNAPROPERTY_LIST && list_count(copy) == 2,
+		"the copy has the same number of elements, trailing null included");
+	(void)vnaproperty_delete(&copy, ".");
+	(void)vnaproperty_delete(&lst, ".");
+    }
 #elif DESC_CASE == 11
     {
 	vnaproperty_t *copy = NULL;
